@@ -1,5 +1,6 @@
 import FxVerif.Model.C18
 import FxVerif.Model.C18P
+import FxVerif.Model.C18E
 import FxVerif.Model.Util
 /-! line-protocol driver for the C18 model: `lake env lean --run Driver/C18.lean < ops.txt`.
 Every boundary is run through the composition COMPILED FROM THE GENERATED call lists, on a state of marks. -/
@@ -98,7 +99,16 @@ def applyCall (e : Env) (name : String) (how : String) : Option Env :=
   | "oog" => some (vmErr e name .outOfGas)
   | "invalid" => some (vmErr e name .invalidOpcode)
   | "insufficient" => some (vmErr e name .insufficientBalance)
-  | _ => none
+  | _ =>
+    -- `shape:<payload shape>`: the outcome of the interpreter, taken through the REGENERATED helper (Model/C18E):
+    -- does CallEVM return an error, and which VM error kind does the response it hands back carry
+    if how.startsWith "shape:" then
+      match FxVerif.Model.C18E.shapeOutcome (how.drop 6).toString with
+      | some o =>
+        let e' := vmErr e name (FxVerif.Model.C18E.envKind (fun _ => false) o)
+        some (if FxVerif.Model.C18E.envOk (fun _ => false) o then e' else failAt e' name 0)
+      | none => none
+    else none
 
 def flowStr : Flow → String
   | .norm => "norm" | .brk => "brk" | .cont => "cont" | .ret true => "nil" | .ret false => "err" | .panic => "panic"
@@ -297,6 +307,7 @@ def step (st : Unit) (line : String) : Unit × String :=
     match P.inactive modes with
     | some r => ((), r)
     | none => ((), "bad-op")
+  | ["evmres", shape] => ((), FxVerif.Model.C18E.evmresLine shape)
   | ["pxc", ok] => ((), P.xc (ok == "ok"))
   | ["pbci", ntok, pre, conv, isc, memo, call, same, zero, rok] =>
     match ntok.toNat?, P.optNat pre, P.optNat conv with
